@@ -555,10 +555,25 @@ func (w *world) txRenew(d TxD, h uint32) *candTx {
 		return nil
 	}
 	old := votes[mod(d.P, len(votes))]
+	if d.F == 3 {
+		// renewal at the last moment: the vote whose lock time is the previous
+		// height, so that this block is the one that would expire it
+		for _, cand := range votes {
+			if len(cand.Info) > 0 && cand.Info[0].LockTime+1 == h {
+				old = cand
+				w.c.Probe("renewal-built-for-the-block-that-expires-the-vote")
+				break
+			}
+		}
+	}
 	info := old.Info[0]
 	nv := payload.VotesWithLockTime{Candidate: info.Candidate, Votes: info.Votes, LockTime: info.LockTime + uint32(d.B)}
 	adversarial := false
 	switch d.F {
+	case 3:
+		if p := w.inst.arb.State.GetProducer(info.Candidate); p != nil && nv.LockTime > p.Info().StakeUntil && p.Info().StakeUntil > info.LockTime {
+			nv.LockTime = p.Info().StakeUntil
+		}
 	case 1:
 		nv.Votes += common.Fixed64(d.A)
 		adversarial = true
